@@ -66,13 +66,14 @@ def equiv(p, ctx):
     spec = p["spec"]
     with Sim(ctx):
         A = build(spec, p, ctx.symbolic)
-        okA, r = ctx.call(A.project.simulate, **sim_kwargs(A))
-        n_in = sum(1 for a in A.project.absence_time_list if a < A.project.time)
+        runA = A.project.backward_simulate if p.get("backward") else A.project.simulate
+        okA, r = ctx.call(runA, **sim_kwargs(A))
+        n_in = sum(1 for a in A.run["abs"] if a < A.project.time)
         okR, r = ctx.call(A.project.remove_absence_time_list)
         B = build(spec, p, ctx.symbolic)
         kw = sim_kwargs(B)
         kw["absence_time_list"] = []
-        okB, r = ctx.call(B.project.simulate, **kw)
+        okB, r = ctx.call(B.project.backward_simulate if p.get("backward") else B.project.simulate, **kw)
         if not (okA and okR and okB):
             ctx.fail("C10:equivalence:raised")
         else:
@@ -117,6 +118,8 @@ def obligations(tier, seed):
                         obs.append({"name": "equiv0/k=%s/%s/rule=%d/zero-work-auto" % (profiles.KN[k], layout, rule), "harness": "equiv", "cube": {"spec": spec, "w1": 0, "zero_auto": True},
                                     "params": [["w0", 0, 2], ["w2", 0, 2], ["pa0", 0, 5], ["pa1", 0, 8]], "pre": "pa0 < pa1",
                                     "timeout": 900 if thorough else 150, "engine": "zsym"})
+    for ob in [o for o in obs if o["name"].startswith("equiv/k=FS/") and "/rule=0/" in o["name"]]:
+        obs.append(dict(ob, name=ob["name"].replace("equiv/", "equiv-backward/"), cube=dict(ob["cube"], backward=True)))
     # a task that several workers can share, competing with a chain for a worker who is eligible for both
     for rule in ((0, 4) if not thorough else range(9)):
         spec = {"tasks": [{"w": "$w0"}, {"w": "$w1"}, {"w": "$w2"}], "edges": [[0, 2, 0]],
